@@ -17,7 +17,7 @@ from mako import pyparser
 class PythonCode:
     """represents information about a string containing Python code"""
 
-    def __init__(self, code, lineno_offset=0, **exception_kwargs):
+    def __init__(self, code, lineno_offset=0, mode="exec", **exception_kwargs):
         self.code = code
 
         # represents all identifiers which are assigned to at some point in
@@ -46,9 +46,17 @@ class PythonCode:
             # error is reported against the line it is on
             lineno_offset += code[: len(code) - len(stripped)].count("\n")
 
+            # ``mode`` is "eval" for the places that hold an expression
+            # (${}, ${} in a tag attribute, <%call expr>): a statement such
+            # as "pass" or "x = 1" is a syntax error there, which would
+            # otherwise only be found in the generated module
+            if mode == "eval":
+                # blanks and line breaks may follow the expression
+                stripped = stripped.rstrip()
+
             expr = pyparser.parse(
                 stripped,
-                "exec",
+                mode,
                 lineno_offset=lineno_offset,
                 **exception_kwargs,
             )
